@@ -59,11 +59,11 @@ Fixpoint wfy_inv (c : cmd) (i : invy) : bool :=
   | YTrail its vs =>
       wfx_items c PSValuesDone 1 its && not_pos (items_pst c PSValuesDone 1 its)
       && (if is_done (items_pst c PSValuesDone 1 its) then nosub c ESC else true)
-      && negb (is_set s_dont_delimit_trailing c)
+      && negb (is_set s_dont_delimit_trailing c) && negb (low_index_mults_any c)
       && wfx_trail c (items_pos c 1 its) vs
   | YTva its vs =>
       wfx_items c PSValuesDone 1 its && is_done (items_pst c PSValuesDone 1 its)
-      && negb (is_set s_dont_delimit_trailing c)
+      && negb (is_set s_dont_delimit_trailing c) && negb (low_index_mults_any c)
       && wfx_tva c (items_pos c 1 its) vs
   | YHyp its vs =>
       wfx_items c PSValuesDone 1 its && is_done (items_pst c PSValuesDone 1 its)
@@ -106,10 +106,10 @@ Lemma wfy_inv_parts c i : wfy_inv c i = true ->
   | YTrail its vs =>
       wfx_items c PSValuesDone 1 its = true /\ not_pos (items_pst c PSValuesDone 1 its) = true /\
       (items_pst c PSValuesDone 1 its = PSValuesDone -> nosub c ESC = true) /\
-      is_set s_dont_delimit_trailing c = false /\ wfx_trail c (items_pos c 1 its) vs = true
+      is_set s_dont_delimit_trailing c = false /\ low_index_mults_any c = false /\ wfx_trail c (items_pos c 1 its) vs = true
   | YTva its vs =>
       wfx_items c PSValuesDone 1 its = true /\ items_pst c PSValuesDone 1 its = PSValuesDone /\
-      is_set s_dont_delimit_trailing c = false /\ wfx_tva c (items_pos c 1 its) vs = true
+      is_set s_dont_delimit_trailing c = false /\ low_index_mults_any c = false /\ wfx_tva c (items_pos c 1 its) vs = true
   | YHyp its vs =>
       wfx_items c PSValuesDone 1 its = true /\ items_pst c PSValuesDone 1 its = PSValuesDone /\
       wfx_hyp c (items_pos c 1 its) vs = true
@@ -131,16 +131,18 @@ Proof.
     split; [exact Ef|]. split; [exact Eb|]. split; [reflexivity|exact H8].
   - apply andb_prop in H. destruct H as [H H3]. apply andb_prop in H. destruct H as [H1 H2].
     split; [exact H1|]. split; [destruct (is_set s_ignore_errors c); [discriminate|reflexivity]|].
-    apply andb_prop in H3. destruct H3 as [H3 H8]. apply andb_prop in H3. destruct H3 as [H3 H7].
+    apply andb_prop in H3. destruct H3 as [H3 H8]. apply andb_prop in H3. destruct H3 as [H3 H9]. apply andb_prop in H3. destruct H3 as [H3 H7].
     apply andb_prop in H3. destruct H3 as [H3 H6]. apply andb_prop in H3. destruct H3 as [H4 H5].
     split; [exact H4|]. split; [exact H5|]. split; [intros E; rewrite E in H6; exact H6|].
-    split; [destruct (is_set s_dont_delimit_trailing c); [discriminate|reflexivity]|exact H8].
+    split; [destruct (is_set s_dont_delimit_trailing c); [discriminate|reflexivity]|].
+    split; [destruct (low_index_mults_any c); [discriminate|reflexivity]|exact H8].
   - apply andb_prop in H. destruct H as [H H3]. apply andb_prop in H. destruct H as [H1 H2].
     split; [exact H1|]. split; [destruct (is_set s_ignore_errors c); [discriminate|reflexivity]|].
-    apply andb_prop in H3. destruct H3 as [H3 H8]. apply andb_prop in H3. destruct H3 as [H3 H7].
+    apply andb_prop in H3. destruct H3 as [H3 H8]. apply andb_prop in H3. destruct H3 as [H3 H9]. apply andb_prop in H3. destruct H3 as [H3 H7].
     apply andb_prop in H3. destruct H3 as [H4 H5].
     split; [exact H4|]. split; [destruct (items_pst c PSValuesDone 1 its); try discriminate; reflexivity|].
-    split; [destruct (is_set s_dont_delimit_trailing c); [discriminate|reflexivity]|exact H8].
+    split; [destruct (is_set s_dont_delimit_trailing c); [discriminate|reflexivity]|].
+    split; [destruct (low_index_mults_any c); [discriminate|reflexivity]|exact H8].
   - apply andb_prop in H. destruct H as [H H3]. apply andb_prop in H. destruct H as [H1 H2].
     split; [exact H1|]. split; [destruct (is_set s_ignore_errors c); [discriminate|reflexivity]|].
     apply andb_prop in H3. destruct H3 as [H3 H8]. apply andb_prop in H3. destruct H3 as [H4 H5].
@@ -199,7 +201,7 @@ Proof.
     rewrite Ha. cbn [negb].
     rewrite (IH scb f' Hvc Hwj).
     destruct (run_invy scb j) as [sub_st|e s|n]; [reflexivity|rewrite !Hie; reflexivity|reflexivity].
-  - destruct H as [Hwi [Hnp [Hns [Hddt Hwt]]]]. cbn [render_invy run_invy].
+  - destruct H as [Hwi [Hnp [Hns [Hddt [Hlow Hwt]]]]]. cbn [render_invy run_invy].
     apply (gmw_tail_y c f its (ESC :: vs) vs Hx Hie Hddt Hwi Hwt). intros st' Ea.
     pose proof (pend_inv_none c PSValuesDone ps_new eq_refl) as Hi0.
     pose proof (items_pst_okx c Hx its PSValuesDone 1 Hwi I) as Hpo.
@@ -209,13 +211,13 @@ Proof.
     exists (st' <| mt := start_trailing (mt st') |>). split; [apply (resolve_start_trailing c Hddt)|].
     rewrite (loop_escape_x c Hx vs _ _ _ st' Hpo).
     2: { destruct (items_pst c PSValuesDone 1 its) eqn:Ep; try exact I. apply Hns. reflexivity. }
-    apply (loop_trail_x c Hx vs _ _ _ _ Hwt (pend_inv_start_trailing c st' Hpi')).
-  - destruct H as [Hwi [Hpst [Hddt Hwt]]]. cbn [render_invy run_invy].
+    apply (loop_trail_x c Hx Hlow vs _ _ _ _ Hwt (pend_inv_start_trailing c st' Hpi')).
+  - destruct H as [Hwi [Hpst [Hddt [Hlow Hwt]]]]. cbn [render_invy run_invy].
     apply (gmw_tail_y c f its vs vs Hx Hie Hddt Hwi (wfx_tva_trail c _ _ Hwt)). intros st' Ea.
     pose proof (pend_inv_none c PSValuesDone ps_new eq_refl) as Hi0.
     pose proof (apply_items_inv_x c Hx its PSValuesDone 1 ps_new st' Hwi Hi0 Ea) as Hpi. rewrite Hpst in Hpi.
     exists st'. split; [reflexivity|]. rewrite Hpst.
-    apply (loop_tva c Hx vs _ _ st' Hwt Hpi).
+    apply (loop_tva c Hx Hlow vs _ _ st' Hwt Hpi).
   - destruct H as [Hwi [Hpst Hwh]]. cbn [render_invy run_invy].
     destruct (wfx_hyp_pos c _ _ Hwh) as [a Hg]. cbn [item_occs]. rewrite Hg.
     rewrite get_matches_with_unfold. unfold cmdline_phase.
@@ -358,7 +360,9 @@ Proof.
     cbn [wfy_inv of_inv run_invy run_inv]. rewrite (conv_convx c Hc), Hie, (wf_wfx c Hc _ _ _ Hw), Hp, Hn, Hps, Hh, Hch, IH1, IH2.
     split; reflexivity.
   - destruct (wf_inv_parts c _ H) as [Hc [Hie [Hw [Hnp [Hns [Hddt Hwt]]]]]].
-    cbn [wfy_inv of_inv run_invy run_inv]. rewrite (conv_convx c Hc), Hie, (wf_wfx c Hc _ _ _ Hw), Hnp, Hddt, (wf_trail_wfx c Hc _ _ Hwt).
+    assert (Hlow : low_index_mults_any c = false).
+    { destruct (conv_parts c Hc) as [_ [_ [_ [_ Hl]]]]. unfold low_index_mults_any. unfold low_index_multiple in Hl. rewrite Hl. reflexivity. }
+    cbn [wfy_inv of_inv run_invy run_inv]. rewrite (conv_convx c Hc), Hie, (wf_wfx c Hc _ _ _ Hw), Hnp, Hddt, Hlow, (wf_trail_wfx c Hc _ _ Hwt).
     rewrite (trailx_occs_conv c Hc). split; [|reflexivity]. cbn [negb andb]. rewrite !andb_true_r.
     destruct (items_pst c PSValuesDone 1 its) eqn:Ep; cbn [is_done]; try reflexivity. apply Hns. reflexivity.
 Qed.
